@@ -188,7 +188,7 @@ impl Case {
 // ------------------------------------------------------------------ run
 fn err_obs(e: &BErr) -> (u64, u64) {
   match e {
-    BErr::DuplicateAddress(_) => (0, 0), // detail filled in by the caller
+    BErr::DuplicateAddress(_) => (0, 0),
     BErr::Dust { dust_value, .. } => (1, dust_value.to_sat()),
     BErr::InvalidAddress(_) => (2, 0),
     BErr::NotEnoughCardinalUtxos => (3, 0),
@@ -238,7 +238,9 @@ pub fn run_build(case: &Case) -> Outcome {
       total += u128::from(*v);
       ok &= *v > 0;
     }
-    ok && total <= u128::from(MAX_SUPPLY)
+    // an OP_RETURN recipient (a burn) needs an explicit amount of at least one sat
+    let burn_ok = case.recipient % 8 != 5 || (case.tkind != 0 && case.tamount >= 1);
+    ok && burn_ok && total <= u128::from(MAX_SUPPLY)
   };
 
   let tname = ["postage", "exact", "value"][case.tkind.min(2) as usize];
@@ -261,10 +263,7 @@ pub fn run_build(case: &Case) -> Outcome {
     );
     match builder.build_transaction() {
       Err(e) => {
-        let (kind, mut detail) = err_obs(&e);
-        if let BErr::DuplicateAddress(a) = &e {
-          detail = u64::from(a.script_pubkey() == recipient2);
-        }
+        let (kind, detail) = err_obs(&e);
         Outcome { obs: L::new().p(1u8).p(kind).p(detail).done(), oracle: Ok(()), cat: format!("err/{kind}") }
       }
       Ok(tx) => {
@@ -300,9 +299,10 @@ pub fn run_build(case: &Case) -> Outcome {
     }
   });
   if out.obs == panic_obs() && !well_formed {
-    // the wallet is not a possible wallet (a zero-valued UTXO or more than 21e14 sat in
-    // total): the panic is reported in the observation but is not held against the property
-    return Outcome { obs: out.obs, oracle: Ok(()), cat: "trivial/ill-formed-wallet/panic".into() };
+    // not a well-formed call (a zero-valued UTXO, more than 21e14 sat in total, or an OP_RETURN
+    // recipient without an explicit amount >= 1 sat): the panic is compared with the model
+    // but is not held against the property
+    return Outcome { obs: out.obs, oracle: Ok(()), cat: "trivial/ill-formed-call/panic".into() };
   }
   out
 }
@@ -416,16 +416,21 @@ fn clauses(
   }
   // value / postage bounds
   let rv = tx.output[rix].value.to_sat();
-  let slop = fee_rate.fee(43).to_sat();
+  // "one output's fee": what adding one 43-vbyte output to this transaction would cost
+  let vs = dummy_vsize(tx.input.len(), &tx.output);
+  let slop = u128::from(fee_rate.fee(vs + 43).to_sat()) - u128::from(fee_rate.fee(vs).to_sat());
+  let change_dust = u128::from(c0.minimal_non_dust().max(c1.minimal_non_dust()).to_sat());
   match case.tkind {
     0 => {
-      if u128::from(rv) > 20_000 + u128::from(slop) {
+      if u128::from(rv) > 20_000 + slop {
         return Err(format!("postage {rv} above cap 20000 + {slop}"));
       }
     }
     1 => {
-      if u128::from(rv) > u128::from(case.tamount) + u128::from(slop) {
-        return Err(format!("postage {rv} above requested {} + {slop}", case.tamount));
+      // an explicit postage can only be exceeded by what cannot become a change output:
+      // less than a change output's dust limit plus the fee of that output
+      if u128::from(rv) > u128::from(case.tamount) + change_dust + slop {
+        return Err(format!("postage {rv} above requested {} + {change_dust} + {slop}", case.tamount));
       }
     }
     _ => {
